@@ -13,6 +13,9 @@ import (
 	"golang.org/x/tools/go/ssa"
 )
 
+// fillLongLen: length of the long string class of Fill (pattern bit 2): above the 32 KiB caps, below 2^16
+const fillLongLen = 40000
+
 type filler struct {
 	ex      *Exec
 	focus   int
@@ -89,6 +92,18 @@ func (f *filler) fillValue(t types.Type, old Value, depth int) Value {
 			}
 			n := 1
 			if me == f.focus {
+				if f.pattern&2 != 0 {
+					// long form (pattern bit 2): fillLongLen bytes, first and last symbolic, 'a' between
+					fb := ex.freshBytes(2)
+					sym := make([]*Term, fillLongLen)
+					a := tc.Const(8, 'a')
+					for i := range sym {
+						sym[i] = a
+					}
+					sym[0], sym[fillLongLen-1] = fb[0], fb[1]
+					ex.fillLong = true
+					return &StrV{sym: sym}
+				}
 				n = int(ex.choose(3))
 				ex.chooses = append(ex.chooses, int64(n))
 			}
@@ -249,6 +264,9 @@ func (ex *Exec) doFill(arg Value, focus, pattern int, count bool) int {
 	}
 	p := iv.v.(Ptr)
 	f := &filler{ex: ex, focus: focus, pattern: pattern, count: count}
+	if !count {
+		ex.fillLong = false
+	}
 	cur := ex.load(p)
 	if count {
 		// count mode must not allocate inputs
@@ -374,6 +392,9 @@ func (ex *Exec) carriedStruct(bs map[*Term]bool, t types.Type, pv, qv Value, pre
 
 func init() {
 	z := "github.com/whatap/golib/zzvf."
+	intrinsics[z+"FillLong"] = func(ex *Exec, fn *ssa.Function, a []Value, site token.Pos) Value {
+		return ex.tc.Bool(ex.fillLong)
+	}
 	intrinsics[z+"Fill"] = func(ex *Exec, fn *ssa.Function, a []Value, site token.Pos) Value {
 		n := ex.doFill(a[0], int(ex.argInt(a[1])), int(ex.argInt(a[2])), false)
 		return ex.tc.Const(64, uint64(n))
